@@ -10,7 +10,8 @@
      Cover C t k r  every directory of t in scope has a kernel watch kw (watch_of_ino) with
                     _path_for_wd[kw] = its path and _wd_for_path[its path] = kw          (the C02 invariant)
      WInv C t k r   distinct live wds/inodes, no stale kernel watch, no stale _wd_for_path key, cookies fresh
-     RSync C w k r  wf_fs w, the root is a directory, WInv, Cover, kernel queue empty
+     RSync C w k r  wf_fs w, the root is a directory, WInv, Cover, kernel queue empty, no move-out candidate pending
+                    (pend r = None)
      mask_ok C      the event mask contains IN_CREATE, IN_MOVED_FROM, IN_MOVED_TO (WATCHDOG_ALL does) *)
 Require Import WD.Base.Prelude WD.Base.BStr WD.Model.SubEvents WD.Model.Emitter WD.Model.Fs WD.Model.Reader
                WD.Model.Pipeline WD.Proofs.CoverProofs WD.Proofs.ReplayPipeProofs.
@@ -30,7 +31,7 @@ Print Assumptions C02_walk_dirs.
 (* ---- 2a. Inotify.__init__ establishes the invariant: recursive - every directory below the root; non-recursive - the root *)
 Theorem C02_construct_cover : forall C, c_faults C = [] -> forall w, wf_fs w -> fisdir (c_root C) (w_fs w) = true ->
   exists r k, construct C kinit (w_fs w) = Some (r, k) /\ WInv C (w_fs w) k r /\ Cover C (w_fs w) k r /\
-              k_queue k = [] /\ mvf r = [].
+              k_queue k = [] /\ mvf r = [] /\ pend r = None.
 Proof. exact construct_cover. Qed.
 Print Assumptions C02_construct_cover.
 
@@ -110,9 +111,10 @@ Theorem C02_step_rename_dir_in : forall C, c_faults C = [] -> forall w k r p q w
 Proof. exact step_rename_dir_in. Qed.
 Print Assumptions C02_step_rename_dir_in.
 
-(* Rename of a directory out of the tree: everything under the root is still covered.  The kernel watches of the
-   departed directories and their entries in both maps stay behind - known finding F10 - so the conclusion is Cover,
-   not RSync, and the sequential theorem stops here. *)
+(* Rename of a directory out of the tree: everything under the root is still covered; the departed sub-tree's watches
+   and map entries are still there and the move-out candidate is set (pend = Some (cookie, old path)): the next record
+   the reader processes forgets them (repair of F10; C02_out_pending / C02_pending_step below).  Pinned code
+   (c_fix_moveout = false): pend stays None and they stay behind for ever. *)
 Theorem C02_step_rename_dir_out : forall C w k r p q w' ep, RSync C w k r -> npath p -> npath q -> c_recursive C = true ->
   N.land IN_MOVED_FROM (c_mask C) <> 0%N -> N.land IN_MOVED_TO (c_mask C) <> 0%N ->
   apply_op w (Rename p q) = Some w' -> flookup p (w_fs w) = Some ep -> f_dir ep = true ->
@@ -120,7 +122,10 @@ Theorem C02_step_rename_dir_out : forall C w k r p q w' ep, RSync C w k r -> npa
   let k1 := kernel_op k (w_fs w) (Rename p q) in
   exists r' k' evs, read_batch C (w_fs w') (r, drainq k1, []) (k_queue k1) = Done (r', k', evs) /\
     wf_fs w' /\ isdir_in (c_root C) (w_fs w') /\ Cover C (w_fs w') k' r' /\ k_queue k' = [] /\
-    wfp r' = wfp r /\ pfw r' = pfw r /\ k_watches k' = k_watches k.
+    wfp r' = wfp r /\ pfw r' = pfw r /\ k_watches k' = k_watches k /\
+    pend r' = (if c_fix_moveout C then Some (k_next_cookie k, p) else None) /\
+    mvf r' = aset N.eqb (k_next_cookie k) p (mvf r) /\ k_next_wd k' = k_next_wd k /\
+    k_next_cookie k' = (k_next_cookie k + 1)%N /\ Forall (rsafe C) evs.
 Proof. exact step_rename_dir_out. Qed.
 Print Assumptions C02_step_rename_dir_out.
 
